@@ -15,6 +15,7 @@ import (
 
 	"github.com/johannesboyne/gofakes3"
 	"github.com/johannesboyne/gofakes3/internal/s3io"
+	"github.com/johannesboyne/gofakes3/internal/verifhook"
 	"github.com/spf13/afero"
 )
 
@@ -526,6 +527,7 @@ func (db *MultiBucketBackend) PutObject(
 		return result, err
 	}
 	tmpFilePath := f.Name()
+	verifhook.At("fs.put.before-copy")
 
 	var closed, committed bool
 	defer func() {
@@ -553,6 +555,7 @@ func (db *MultiBucketBackend) PutObject(
 		return result, err
 	}
 	closed = true
+	verifhook.At("fs.put.before-meta")
 
 	if conflict, err := keyConflict(db.bucketFs, bucketName, objectName); err != nil {
 		return result, err
@@ -580,6 +583,7 @@ func (db *MultiBucketBackend) PutObject(
 	if err != nil {
 		return result, err
 	}
+	verifhook.At("fs.put.before-rename")
 
 	if objectDir != "." {
 		if err := db.bucketFs.MkdirAll(objectDir, db.dirMode); err != nil {
@@ -593,6 +597,7 @@ func (db *MultiBucketBackend) PutObject(
 		return result, err
 	}
 	committed = true
+	verifhook.At("fs.put.after-rename")
 
 	return result, nil
 }
@@ -638,6 +643,7 @@ func (db *MultiBucketBackend) deleteObjectLocked(bucketName, objectName string) 
 		return err
 	}
 	removeEmptyDirs(db.bucketFs, bucketName, path.Dir(objectName))
+	verifhook.At("fs.delete.between")
 
 	if err := db.metaStore.deleteMeta(db.metaStore.metaPath(bucketName, objectName)); err != nil {
 		return err
